@@ -735,13 +735,12 @@ def run(ctx):
             env = dict(pre)
             val = None
             for st in loop.body:
-                if isinstance(st, ast.If) and is_last_test(st.test) and not st.orelse:
-                    if last:
-                        for s2 in st.body:
-                            if isinstance(s2, ast.Assign) and isinstance(s2.targets[0], ast.Name):
-                                env[s2.targets[0].id] = ev(s2.value, env, last)
-                            else:
-                                return None
+                if isinstance(st, ast.If) and is_last_test(st.test):
+                    for s2 in (st.body if last else st.orelse):   # the arm this iteration takes (no else: nothing happens)
+                        if isinstance(s2, ast.Assign) and isinstance(s2.targets[0], ast.Name):
+                            env[s2.targets[0].id] = ev(s2.value, env, last)
+                        else:
+                            return None
                     continue
                 calls = [c for c in ast.walk(st) if isinstance(c, ast.Call) and isinstance(c.func, ast.Attribute) and c.func.attr == addcall]
                 if calls:
